@@ -10,8 +10,8 @@ from vlib.harness import V, derive_seed, run_shards, REPO
 from vlib.lib import call
 
 PROPERTY = 'C14'
-RULE = ('tables 2015 and 2023 (year= as int) and the combined-events table x every tabulated event as written and in lower '
-        'case (when that spelling is itself an accepted code) x gender spellings {m f M F male Male men female FEMALE Female} x '
+RULE = ('tables 2015 and 2023 (year= as int) and the combined-events table x every tabulated event as written and in lower, Title, '
+        'swapped and alternating letter case (when that spelling is itself an accepted code) x gender spellings {m f M F male Male men female FEMALE Female} x '
         'every integer and half-integer age from the first non-null column of the row to 20 years past the last column (an '
         'age is covered when the cells it needs are non-null); grades on a grid of performances 0.5x..2x the open best at 8 '
         'ages per row; factor clauses complete in both tiers, grades at 8 ages per row (quick) / every integer age (thorough); oracle = the JSON cell read '
@@ -62,13 +62,27 @@ def f_grade(year, gender, age, event, perf):
     return call(athlib.wma_age_grade, gender, age, event, perf, year=year)
 
 
+def _case_ok(sp, event):
+    if sp == event or not codes.PAT_EVENT_CODE.match(sp):
+        return False
+    return any(p.match(sp) for p in (codes.PAT_THROWS, codes.PAT_JUMPS, codes.PAT_TRACK, codes.PAT_ROAD))
+
+
 def lower_ok(event):
     lo = event.lower()
-    if lo == event or not codes.PAT_EVENT_CODE.match(lo):
-        return None
-    if not any(p.match(lo) for p in (codes.PAT_THROWS, codes.PAT_JUMPS, codes.PAT_TRACK, codes.PAT_ROAD)):
-        return None
-    return lo
+    return lo if _case_ok(lo, event) else None
+
+
+def case_spellings(event):
+    """Other letter-case spellings of a tabulated event that are themselves accepted codes: lower, Title, sWAPPED
+    and two alternating masks."""
+    out = []
+    alt1 = ''.join(ch.lower() if i % 2 else ch.upper() for i, ch in enumerate(event))
+    alt2 = ''.join(ch.upper() if i % 2 else ch.lower() for i, ch in enumerate(event))
+    for sp in (event.lower(), event.title(), event.swapcase(), alt1, alt2):
+        if _case_ok(sp, event) and sp not in out:
+            out.append(sp)
+    return out
 
 
 def is_timed(event):
@@ -122,7 +136,7 @@ def examine(case):
                 out.append(V('half-integer-between-neighbours', ['factor-between'], base, f, [lo, hi]))
         # spelling independence of the factor
         for sp in GENDERS[g]:
-            for ev in [event] + ([lower_ok(event)] if lower_ok(event) else []):
+            for ev in [event] + case_spellings(event):
                 if sp == g and ev == event:
                     continue
                 r2 = f_factor(year, sp, age, ev)
@@ -180,7 +194,7 @@ def examine(case):
         p = perfs[len(perfs) // 2]
         ref = f_grade(year, g, age, event, p)
         for sp in GENDERS[g]:
-            for ev in [event] + ([lower_ok(event)] if lower_ok(event) else []):
+            for ev in [event] + case_spellings(event):
                 if sp == g and ev == event:
                     continue
                 b2 = f_best(year, sp, ev)
